@@ -12,7 +12,8 @@ MODEL_FILES = ['Container/Container.v', 'Container/Alias.v']
 K_NAME = ('K_container (Container.np_step / np_init_model, OCaml extraction, vs VectorContainer / BaseModel / BaseLinker: outcome class, '
           'index, dtype+shape+cells of every series, values shape or exception, size, nbytes, strict, _attributes, attribute names after every op)')
 RULE = ('operation sequences over {add_variable, attribute set, item set by name / (name,label) / (name,label-slice), replace_values, '
-        'values setter (array/scalar/list), add_attribute, strict toggle, read-only hooks (_ipython_key_completions_, dir(), in, nbytes)}: exhaustive sequences of length <= 3 over a reduced alphabet on '
+        'values setter (array/scalar/list), add_attribute, strict toggle, read-only hooks (_ipython_key_completions_, dir(), in, nbytes), '
+        'cross-instance steps (copy()/deepcopy/reindex() siblings that are then operated on, the object replaced by its copy, attribute reads)}: exhaustive sequences of length <= 3 over a reduced alphabet on '
         'VectorContainer, random sequences of length <= 40 on VectorContainer, BaseModel, BaseLinker (with and without a submodel); operands: '
         'scalars (int, half-integer floats, nan, +-inf, bool, str, None), lists/tuples/ranges of right and wrong length, nested and ragged lists, '
         'ndarrays of shapes (), (1,), (n,), (n+-1,), (1,n), (n,1), (2,n), (r,n) and dtypes float/int/bool/str/object. '
